@@ -486,6 +486,13 @@ func (e *Enc) refLoc(ref string, el types.Type) *Loc {
 			return &Loc{Kind: 'A', Key: typeStr(u.Elem()), Ref: ref, T: el}
 		}
 	}
+	// plain cells of named basic types share the heap of their underlying type, so that a pointer conversion such as
+	// (*hexutil.Uint64)(&x) with x uint64 denotes the same cell
+	if _, opq := e.TI.opaqueSort(el); !opq {
+		if b, ok := el.Underlying().(*types.Basic); ok {
+			return &Loc{Kind: 'P', Key: typeStr(b), Ref: ref, T: el}
+		}
+	}
 	return &Loc{Kind: 'P', Key: typeStr(el), Ref: ref, T: el}
 }
 
